@@ -1,7 +1,7 @@
 SPECIFICATION Spec
 CONSTANTS
   Universe = "C13Q"
-  Known <- NoDev
+  Known <- KnownExp
   DepthLimit = 100
   PreBody <- ThePreBody
   LogEvents = FALSE
